@@ -129,9 +129,12 @@ def check_world(run, where, inv, res):
 # history generator
 
 
-def gen_project(rng, nmax=7, with_deps=True, with_regen=False):
+def gen_project(rng, nmax=7, with_deps=True, with_regen=False, with_pools=False):
     """a DAG project without phony-as-input; returns (manifest_text, info)"""
     n = rng.randint(1, nmax)
+    pools = []
+    if with_pools and rng.random() < 0.7:
+        pools = [["p%d" % i, rng.choice([1, 2, 3])] for i in range(rng.randint(1, 2))]
     sources = ["s%d.c" % i for i in range(rng.randint(1, 3))]
     headers = ["h%d.h" % i for i in range(3)]
     builds = []
@@ -151,15 +154,20 @@ def gen_project(rng, nmax=7, with_deps=True, with_regen=False):
                 opts.append("depsfrom=%s" % depsrc)
         if rng.random() < 0.15:
             opts.append("restat")
-        builds.append({"outs": outs, "ex": ex, "im": im, "oo": oo, "opts": opts, "tag": "t%d" % i})
+        builds.append({"outs": outs, "ex": ex, "im": im, "oo": oo, "opts": opts, "tag": "t%d" % i,
+                       "pool": rng.choice(pools)[0] if pools and rng.random() < 0.7 else None})
         outs_all.append(outs)
-    info = {"builds": builds, "sources": sources, "headers": headers, "outs_all": outs_all, "regen": with_regen}
+    info = {"builds": builds, "sources": sources, "headers": headers, "outs_all": outs_all, "regen": with_regen, "pools": pools}
     return manifest_text(info), info
 
 
 def manifest_text(info):
     lines = ["rule r", "  command = cmd $tag $out $opts"]
-    if info.get("regen"):
+    for pn, pd in info.get("pools", []):
+        lines += ["pool %s" % pn, "  depth = %d" % pd]
+    if info.get("regen") == "include":
+        pass      # the regeneration statement lives in the wrapper (wrapper_text); this text is rules.ninja
+    elif info.get("regen"):
         lines += ["rule regen", "  command = cmd regen gen=manifest.in", "build build.ninja: regen manifest.in"]
     for b in info["builds"]:
         l = "build %s: r %s" % (" ".join(b["outs"]), " ".join(b["ex"]))
@@ -169,9 +177,15 @@ def manifest_text(info):
             l += " || " + " ".join(b["oo"])
         lines.append(l)
         lines.append("  tag = %s" % b["tag"])
+        if b.get("pool"):
+            lines.append("  pool = %s" % b["pool"])
         if b["opts"]:
             lines.append("  opts = %s" % " ".join(b["opts"]))
     return "\n".join(lines) + "\n"
+
+
+WRAPPER = ("rule regen\n  command = cmd regen gen=wrapper.in gen1=rules.in restat\n"
+           "build build.ninja rules.ninja: regen rules.in\ninclude rules.ninja\n")
 
 
 def src_content(rng, headers):
@@ -184,9 +198,9 @@ def src_content(rng, headers):
     return "".join("#include %s\n" % h for h in inc + extra) + "// v%d\n" % rng.randint(0, 999)
 
 
-def gen_history(rng, nmax=6, with_regen=False, ninv=None):
+def gen_history(rng, nmax=6, with_regen=False, ninv=None, with_pools=False):
     """returns (steps(list of str), invs(list of meta), state per invocation for the clean-build oracle)"""
-    text, info = gen_project(rng, nmax=nmax, with_regen=with_regen)
+    text, info = gen_project(rng, nmax=nmax, with_regen=with_regen, with_pools=with_pools)
     files = {}
     steps = []
 
@@ -194,9 +208,15 @@ def gen_history(rng, nmax=6, with_regen=False, ninv=None):
         files[name] = content
         steps.append("file %s %s" % (hx(name), hx(content)))
 
-    if with_regen:
-        put("manifest.in", text)
-    put("build.ninja", text)
+    if with_regen == "include":
+        put("wrapper.in", WRAPPER)
+        put("rules.in", text)
+        put("rules.ninja", text)
+        put("build.ninja", WRAPPER)
+    else:
+        if with_regen:
+            put("manifest.in", text)
+        put("build.ninja", text)
     for s in info["sources"]:
         put(s, src_content(rng, info["headers"]))
     for h in info["headers"]:
@@ -221,12 +241,21 @@ def gen_history(rng, nmax=6, with_regen=False, ninv=None):
                 elif c < 0.85:
                     # edit the manifest: change a step's tag (command text) or add/remove an order-only edge
                     b = rng.choice(info["builds"])
-                    if rng.random() < 0.6:
+                    if info.get("pools") and rng.random() < 0.4:
+                        pl = rng.choice(info["pools"])
+                        pl[1] = rng.choice([d for d in (1, 2, 3) if d != pl[1]])
+                        # make the pool's members dirty so that the new depth matters in this very invocation
+                        for bb in info["builds"]:
+                            if bb.get("pool") == pl[0]:
+                                bb["tag"] = "t%d" % rng.randint(100, 999)
+                    elif rng.random() < 0.6:
                         b["tag"] = "t%d" % rng.randint(100, 999)
                     elif b["oo"]:
                         b["oo"] = []
                     text = manifest_text(info)
-                    if with_regen:
+                    if with_regen == "include":
+                        put("rules.in", text)
+                    elif with_regen:
                         put("manifest.in", text)
                     else:
                         put("build.ninja", text)
